@@ -83,14 +83,20 @@ Definition rtime_eqb (a b : option rtime) : bool :=
   | _, _ => false
   end.
 
-(* what the backend must see for the options the caller gave (Body apart) *)
+(* Body: the value given; when none was given, the documented default of
+   Client.Mail (BODY=8BITMIME iff the server offers 8BITMIME) *)
+Definition body_matches (given seen : mail_opts) : bool :=
+  match mo_body given with
+  | [] => match mo_body seen with [] => true | b => bytes_eqb b (bs "8BITMIME") end
+  | b => bytes_eqb b (mo_body seen)
+  end.
+
+(* what the backend must see for the options the caller gave *)
 Definition mo_matches (given seen : mail_opts) : bool :=
-  (mo_size given =? mo_size seen)%Z && Bool.eqb (mo_requiretls given) (mo_requiretls seen)
+  body_matches given seen
+  && (mo_size given =? mo_size seen)%Z && Bool.eqb (mo_requiretls given) (mo_requiretls seen)
   && Bool.eqb (mo_utf8 given) (mo_utf8 seen) && bytes_eqb (mo_ret given) (mo_ret seen)
   && bytes_eqb (mo_envid given) (mo_envid seen) && optb_eqb (mo_auth given) (mo_auth seen).
-
-Definition body_matches (given seen : mail_opts) : bool :=
-  match mo_body given with [] => true | b => bytes_eqb b (mo_body seen) end.
 
 Definition ro_matches (given seen : rcpt_opts) : bool :=
   list_bytes_eqb (ro_notify given) (ro_notify seen)
@@ -149,9 +155,8 @@ Fixpoint c14_walk (calls : list call) (results : list (list res)) (evs : list ev
             match next_mail evs with
             | Some (f, seen, evs') =>
                 let ok := bytes_eqb f from && mo_matches given seen in
-                ((if ok then [] else [bs "C14"]) ++ (if body_matches given seen then [] else [bs "C14"]),
-                 (if ok || addr_simple from then [] else [bs "F25"])
-                 ++ (if body_matches given seen then [] else [bs "F14"]),
+                (if ok then [] else [bs "C14"],
+                 if ok || addr_simple from then [] else [bs "F25"],
                  evs')
             | None => ([bs "C14"], [], evs)
             end
